@@ -614,7 +614,12 @@ func (fc *funcContext) typeOf(expr ast.Expr) types.Type {
 	typ := fc.pkgCtx.TypeOf(expr)
 	// If the expression is referring to an instance of a generic type or function,
 	// we want the instantiated type.
-	if ident, ok := expr.(*ast.Ident); ok {
+	ident, _ := expr.(*ast.Ident)
+	if sel, ok := expr.(*ast.SelectorExpr); ok {
+		// A qualified identifier (pkg.Func) is recorded under its selector.
+		ident = sel.Sel
+	}
+	if ident != nil {
 		if inst, ok := fc.pkgCtx.Instances[ident]; ok {
 			typ = inst.Type
 		}
